@@ -1,5 +1,38 @@
 """C01 -- purity of query answers and layout of batched replies (spec/C01.tla)."""
-from lib import build, tlc, replay, report
+import json, os
+from lib import build, tlc, replay, report, datfiles
+
+NP = 6
+ALPHA = {"T": [1, 0, 0], "C0": [2, 0, 0], "C1": [2, 1, 0], "G0x2": [3, 0, 2], "Tag": [4, 0, 0], "V": [5, 0, 0]}
+
+
+def file_prologue(exe, c):
+    """Opaque repository worlds: target lists F<f> and references F/<f>/<i>/<prop>, every file's references computed in a
+    harness process of its own (nothing else has been constructed or queried there)."""
+    worlds = datfiles.repo_worlds(max_points=NP)
+    isolated = []
+    for f, w in enumerate(worlds, 1):
+        pts = [w["points"][i % len(w["points"])] for i in range(NP)]
+        w["targets"] = [dict(pt, h=0, pre="F/%d/%d/" % (f, i + 1)) for i, pt in enumerate(pts)]
+        steps = [{"op": "create", "h": 0, "path": w["path"], "default_seed": True, "expect": "any"}]
+        for t in w["targets"]:
+            for nm, pr in ALPHA.items():
+                steps.append(dict(t, op="q", props=[pr], save=t["pre"] + nm, may_throw=True))
+        isolated.append(json.dumps({"id": ["ref", f], "labels": ["isolated-reference"], "steps": steps}))
+    # shards = number of behaviours: one process per world
+    res = replay.replay(exe, isolated, shards=len(isolated), dump=True, timeout_s=60)
+    steps = []; kept = []
+    for f, (w, b) in enumerate(zip(worlds, isolated), 1):
+        saves = res.saves.get(b, {})
+        steps.append({"op": "defpath", "name": "F%d" % f, "path": w["path"]})
+        steps.append({"op": "deftargets", "name": "F%d" % f, "targets": w["targets"]})
+        if not saves: continue                      # a file that is meant not to build: creating it fails, its steps are skipped
+        kept.append(f)
+        for nm, vals in saves.items():
+            if all(v == v and abs(v) != float("inf") for v in vals):
+                steps.append({"op": "defsave", "name": nm, "v": vals})
+    c.notes["opaque_files"] = {"candidates": len(worlds), "built": len(kept), "references": sum(1 for s in steps if s["op"] == "defsave")}
+    return json.dumps({"id": "file-prologue", "global": True, "steps": steps}), len(worlds), kept
 
 
 def run(tier):
@@ -18,20 +51,36 @@ def run(tier):
     c.add_tlc(hist, "history")
     hb = [b for b in hist.behaviours if '"global":true' not in b[:200]]
     if not quick:
-        sim = tlc.run("C01.tla", "C01_hist_sim.cfg", workers=8, timeout=900, simulate=2500, depth=24, seed=c.seed)
+        sim = tlc.run("C01.tla", "C01_hist_sim.cfg", workers=8, timeout=900, simulate=300, depth=27, seed=c.seed)
         c.add_tlc(sim, "history-simulate")
         hb += [b for b in sim.behaviours if '"global":true' not in b[:200]]
     res = replay.replay(exe, prologue + lists + hb, shards=16)
     c.add_replay(res, "layout lists + life-cycle histories")
+    # opaque-file machine over the repository's own worlds
+    fpro, nf, kept = file_prologue(exe, c)
+    env = {"C01_NF": nf, "C01_NP": NP}
+    rr = tlc.run("MC_C01_rr.tla", "C01_rr.cfg", workers=2, timeout=600, env=env)
+    c.add_tlc(rr, "all files of a chunk alive, round-robin")
+    fb = [b for b in rr.behaviours if '"all-alive"' in b[:80]]
+    fs = tlc.run("C01.tla", "C01_files_sim.cfg", workers=8, timeout=600, simulate=60 if quick else 600, depth=44, seed=c.seed, env=env)
+    c.add_tlc(fs, "file life-cycle histories (simulation)")
+    fb += [b for b in fs.behaviours if '"file-history"' in b[:80]]
+    # histories may name files that do not build: their create fails as expected and their steps are skipped
+    fb = [b.replace('"default_seed":true}', '"default_seed":true,"expect":"any"}') for b in fb]
+    fres = replay.replay(exe, [fpro] + fb, shards=16, timeout_s=120)
+    c.add_replay(fres, "repository worlds: interleaved histories vs references taken in isolated processes")
+    c.sample(fb[-1][:2000] + "...")
     c.sample(lists[len(lists) // 2]); c.sample(hb[len(hb) // 2])
     c.coverage["exhaustive"] = quick
     c.coverage["rule"] = ("every property list over an 8-element alphabet (T, C0, C1, G0x1, G0x2, G1x3, Tag, V) up to the "
                           "configured length, each queried batched at 76 targets (6 spec-rendered worlds x 8 probes x 2D/3D) and "
                           "compared block by block, bitwise, with stand-alone references taken on a separate pristine world; plus "
-                          "life-cycle histories over two handles (create/release/batched/single-entry-point queries). "
+                          "life-cycle histories over two handles (create/release/batched/single-entry-point queries); plus the repository's own "
+                          "tests/gwb-dat worlds without random models as opaque files: all files of a chunk alive at once and queried round-robin, and "
+                          "simulated histories over three handles, compared bitwise with references computed in one isolated process per file. "
                           "non-trivial = behaviours with at least one feature-covered target (all of them); distinct = distinct "
                           "TLC states / histories")
-    c.coverage["distinct_nontrivial"] = len(set(lists)) + len(set(hb))
+    c.coverage["distinct_nontrivial"] = len(set(lists)) + len(set(hb)) + len(set(fb))
     c.assumptions += ["worlds are the six renderings of spec/C01.tla's configuration (every feature type, uniform models); "
                       "other model types enter through C05/C13", "release build (-O2 -DNDEBUG)"]
     return c.finish()
